@@ -221,6 +221,9 @@ func runOne(t *testing.T, c *mc.Chooser) (out mc.Outcome) {
 		}
 		viol("panic", "panic: %v\n%s", res.Panic, res.Stack)
 	}
+	if res.Hang != "" {
+		viol("hang", "%s", res.Hang)
+	}
 	return out
 }
 
